@@ -35,6 +35,8 @@ CHECKS = {
    "Re-delivered documents are listed once and fetch their original bytes; totals, histograms, aggregations and document counts count them once while all copies sit in one fraction.", TRUST),
  "C09": ("proxysim", "fault_enumeration", "DESIGN.md 7/C09", T + "scripted per-call outcomes (success/error/timeout/late success/lost reply) on a simulated transport against the real bulk client and real circuit breaker under a fake clock; oracle over the recorded call log",
    "For every acknowledged bulk the stubs' call log must contain, for one hot shard (and one long-term shard when configured), a successful delivery of exactly that payload to every replica; retries are bounded; once faults stop a bulk goes through within a bounded number of breaker sleep windows.", TRUST),
+ "C10": ("proxysim", "exploration", "DESIGN.md 7/C10", T + "simulated request-body stream (seeded chunking, cut, read error, gzip) and simulated clock against the real HTTP bulk handler and bulk ingestor; independent framing parser and time rule as oracle; metamorphic equality across chunkings",
+   "Decides the stream/clock facet of C10: the line reader hands out slices of a reused buffer, so what is stored may depend on how the body arrives; the receive time is the clock; the storage call can fail. Valid object documents must be stored verbatim once each, timed by rule, or nothing stored; identical for every chunking. The full input space of JSON shapes is not claimed.", TRUST),
  "C16": ("proxysim", "fault_enumeration", "DESIGN.md 7/C16", T + "scripted per-call store behaviours and broken fetch streams on a simulated transport against the real search ingestor and docs iterators; oracle computed from the script and a model corpus",
    "For every assignment of per-call behaviours the proxy's answer is an error, or the correct merged top over exactly the shards that had an answering replica - flagged partial iff one had none - with the long-term tier consulted iff a hot store declares the range too old, and the i-th document belonging to the i-th id or empty.", TRUST),
  "C18": ("cachesim", "exploration", "DESIGN.md 7/C18", T + "seeded schedule exploration of concurrent cache callers and the cleaner on the real cache package; per-call invariants, accounting/bucket/limit invariants at quiescence, porcupine linearizability check of the lookup history against a register-with-eviction model",
